@@ -245,7 +245,7 @@ func (w *rwWorker) build() {
 		c.touchC("0")
 		cs := c.C["0"]
 		preSend := w.cbal(cs.Ctx, consumertypes.ConsumerToSendToProviderName, feeDenom)
-		_, err, pan := env.TimeoutPacket(&cs, w.w.CA.CApp.IBCKeeper, pk.P)
+		_, err, pan := w.w.netTimeout(&cs, w.w.CA.CApp.IBCKeeper, &c.P, w.w.P.PApp.IBCKeeper, pk.P)
 		if pan != "" {
 			return nil, []V{vf("C19", "panic:xfer-timeout", "%s", pan)}
 		}
